@@ -476,6 +476,16 @@ Definition busid_text (a : aobj) (sep : list N) : list N :=
 
 Definition is_attr_cache_type (t : N) : bool := tcache t || (t =? HWLOC_OBJ_MEMCACHE).
 
+(* the infos loop: one step per info; [ret] is the running returned length *)
+Definition info_step (sep : list N) (acc : nat * list pop) (nv : list N * list N) : nat * list pop :=
+  let '(ret, ops) := acc in
+  let '(name, value) := nv in
+  let q := if existsb (N.eqb 32) value then [34] else [] in           (* a double quote on both sides if strchr(value, ' ') *)
+  let p := (if (0 <? ret)%nat then sep else []) ++ name ++ [61] ++ q ++ value ++ q in
+  ((ret + length p)%nat, ops ++ [PEmit p]).
+Definition infos_ops (sep : list N) (infos : list (list N * list N)) (ret : nat) : list pop :=
+  snd (fold_left (info_step sep) infos (ret, [])).
+
 (* the list of steps; PrAssert for a Bridge whose downstream type is not PCI in verbose mode *)
 Definition attr_snprintf_ops (a : aobj) (sep : list N) (flags : N) : pr (list pop) :=
   let verbose := flag_set flags VERBOSE_MASK in
@@ -520,16 +530,7 @@ Definition attr_snprintf_ops (a : aobj) (sep : list N) (flags : N) : pr (list po
   | PrOk o2 =>
     let ret2 := (ret1 + length (concat (map pop_text o2)))%nat in
     (* infos: prefix becomes separator as soon as ret > 0 *)
-    let ops3 :=
-      if verbose then
-        snd (fold_left (fun (acc : nat * list pop) (nv : list N * list N) =>
-                          let '(ret, ops) := acc in
-                          let '(name, value) := nv in
-                          let q := if existsb (N.eqb 32) value then [34] else [] in
-                          let p := (if (0 <? ret)%nat then sep else []) ++ name ++ [61] ++ q ++ value ++ q in
-                          ((ret + length p)%nat, ops ++ [PEmit p]))
-                       (ao_infos a) (ret2, []))
-      else [] in
+    let ops3 := if verbose then infos_ops sep (ao_infos a) ret2 else [] in
     PrOk (ops1 ++ o2 ++ ops3)
   end.
 
